@@ -502,6 +502,7 @@ func c15Compressed(c *lib.Ctx) {
 // error or the record decodes (and, when hosted, re-encodes) without a panic.
 func c15OtherBaseTypes(c *lib.Ctx, entries []fit.VerifField) {
 	prof := lib.Profile()
+	probeNo := 0
 	for _, e := range entries {
 		pf := prof.Field(e.Mesg, e.Slot)
 		if pf == nil || e.Mesg == 0 {
@@ -525,9 +526,21 @@ func c15OtherBaseTypes(c *lib.Ctx, entries []fit.VerifField) {
 					// both byte orders, and a header profile version at / above the library's own
 					arch := archpv & 1
 					plan := &ref.Plan{HeaderSize: 14, Proto: 0x10, ProfVer: []uint16{2115, 21158}[archpv>>1]}
+					// the file says who wrote it: manufacturer and product rotate through the
+					// probes (all manufacturer numbers 0..511 and 65535 come by many times): what
+					// the decoder accepts must not depend on the vendor
+					probeNo++
+					manu := uint16(probeNo % 513)
+					if manu == 512 {
+						manu = 0xFFFF
+					}
+					prod := uint16(probeNo / 513 * 37)
+					mb, pb2 := make([]byte, 2), make([]byte, 2)
+					ref.Put(mb, uint64(manu), 2, arch)
+					ref.Put(pb2, uint64(prod), 2, arch)
 					plan.Records = append(plan.Records,
-						ref.Record{IsDef: true, Local: 0, Global: 0, Fields: []ref.FieldDef{{Num: 0, Size: 1, Base: 0}}},
-						ref.Record{Local: 0, Data: [][]byte{{ft}}},
+						ref.Record{IsDef: true, Local: 0, Arch: arch, Global: 0, Fields: []ref.FieldDef{{Num: 0, Size: 1, Base: 0}, {Num: 1, Size: 2, Base: 0x84}, {Num: 2, Size: 2, Base: 0x84}}},
+						ref.Record{Local: 0, Data: [][]byte{{ft}, mb, pb2}},
 						ref.Record{IsDef: true, Local: 1, Arch: arch, Global: e.Mesg, Fields: []ref.FieldDef{{Num: e.Num, Size: byte(sz), Base: bt.Code}}})
 					for _, fill := range []byte{0x41, 0xFF, 0x00} {
 						d := make([]byte, sz)
